@@ -221,8 +221,10 @@ def load_findings():
     for p in [f"{ROOT}/known_findings.json"] + sorted(glob.glob(f"{ROOT}/known_findings.d/*.json")):
         if os.path.exists(p):
             d = json.load(open(p))
-            allf["findings"] += d.get("findings", [])
-            allf["fixed"] += d.get("fixed", [])
+            have = {f.get("id") for f in allf["findings"]}
+            allf["findings"] += [f for f in d.get("findings", []) if f.get("id") not in have]
+            havef = {(f.get("id"), f.get("commit")) for f in allf["fixed"]}
+            allf["fixed"] += [f for f in d.get("fixed", []) if (f.get("id"), f.get("commit")) not in havef]
     return allf
 
 
